@@ -82,7 +82,8 @@ def identity_obligation(name, kind, names, traced, reference, native=None, *, se
         S = {n: sym(n) for n in names}
         try:
             Tm = poly_matrix(traced(S))
-        except Unsupported as ex:
+        except Exception as ex:  # pylint: disable=broad-except
+            # Unsupported, or numpy/the kernel refusing object scalars (TypeError ...): the trace left the fragment
             st = None
             try:
                 st = standin(rng)
